@@ -2,12 +2,13 @@
 
 SOURCE_COMMITS = []  # no instrumentation commits in /repo
 
+ENGINES_NOTE = "serves_properties is filled in by gen_manifest from CHECKS"
 ENGINES = [
     {"name": "E1-small-scope", "path": "/verif/mc/runner.py", "serves_properties": [],
      "kind_free_text": "complete enumeration of a bounded input space against a plain-Python reference model, sharded over 16 processes"},
     {"name": "E2-choice-explorer", "path": "/verif/mc/explore.py", "serves_properties": [],
      "kind_free_text": "stateless depth-first exploration of every environment answer (RNG draws, pool completion orders) with prefix replay and path probabilities"},
-    {"name": "E3-statespace", "path": "/verif/mc/statespace.py", "serves_properties": [],
+    {"name": "E3-statespace", "path": "/verif/checks/c12.py (BFS), /verif/checks/c15.py (histories)", "serves_properties": [],
      "kind_free_text": "explicit-state BFS over real transition functions with canonical state hashing"},
     {"name": "E4-crashfs", "path": "/verif/mc/crashfs.py", "serves_properties": [],
      "kind_free_text": "file-system seam: every mutating call is an event; kill-before-event-k with dead mode; crash points enumerated exhaustively"},
@@ -43,11 +44,61 @@ CHECKS += [
      "note": "Crash model: death between two file-system calls, each call atomic; no torn writes or reordering of unsynced writes (the property's stated model). Known finding F14 (formats without {epoch}) is listed in findings/known_findings.json and printed as KNOWN-FINDING."},
 ]
 
+MC_NOTE = ("Bounded to the stated alphabets, sizes and menus; every nondeterministic answer (random draw, completion "
+           "order) inside that scope is enumerated, none sampled. Trusted base: the plain-Python reference model, the "
+           "seam patches in /verif/mc/seams.py, torch primitives; TorchScript-compiled and CUDA variants not explored.")
+
+CHECKS += [
+    {"id": "C05", "engine": "E2-choice-explorer", "level": "model_checking", "design_ref": "DESIGN.md §3 C05",
+     "technique": "exhaustive exploration of prune/merge trajectories of the real CTC prefix search over all small score matrices, lens vectors and widths, against two reference models (exact alignment enumeration; dict-based prefix-beam recursion)",
+     "text": "Every (T<=3/4, V<=2/3, N<=3, all lens vectors, widths 1..far beyond the reachable prefixes, seed-valued and structured score matrices incl. exact zero probabilities, plain and valid-mixture fusion with a stateful table LM) search is run on the real module and on ctc_prefix_search_advance step by step; masses are compared with the exact sum over all alignments when nothing was pruned and with an independent prefix-beam recursion of the same width otherwise (near-ties downgraded to upper bounds); structural invariants (no NaN, distinct blank-free prefixes, ordering, padding slots, batch == solo) on every run. States = distinct (frame, beam contents), transitions = frames advanced.",
+     "note": MC_NOTE},
+    {"id": "C06", "engine": "E1-small-scope", "level": "exploration", "design_ref": "DESIGN.md §3 C06",
+     "technique": "bounded exhaustive enumeration of n-gram tables (all subsets of higher-order n-grams for the small cases) x all histories, against a direct Katz back-off recursion on the dicts",
+     "text": "All tables over V in {2,3}, order <=3/4, sos inside/outside the vocabulary, with every subset of higher-order n-grams for the small cases (bounded subsets + structured tables otherwise), log-probs on a quarter-integer grid incl. -inf; for each: full call, every chunk size, scalar and per-element idx, state_dict round trip into a fresh instance, ARPA serialise/parse (file and path, base 10 and e); tables with >255 nodes per level cross the integer-width selection.",
+     "note": E1_NOTE},
+    {"id": "C07", "engine": "E2-choice-explorer", "level": "model_checking", "design_ref": "DESIGN.md §3 C07",
+     "technique": "exhaustive exploration of the random-walk tree (torch.multinomial is a choice point answering every positive-probability token, path probabilities carried) plus small-scope enumeration of sequence_log_probs / greedy CTC inputs",
+     "text": "sequence_log_probs on every hyp over {-1..V}^T (padded and packed, every dim spelling, eos settings) against a Python loop; the whole walk tree of the real RandomWalk over a history-coded table LM: every leaf ends at first eos/limit, reported log-prob == chain rule == distribution log_prob == sequence_log_probs of the model outputs, leaf probabilities sum to 1; distribution wrapper sample/log_prob/enumerate_support/support.check with default validation; greedy CTC on every frame-label sequence. States = walk-tree nodes, transitions = walk steps, traces = leaves cross-validated three ways.",
+     "note": MC_NOTE},
+    {"id": "C08", "engine": "E2-choice-explorer", "level": "model_checking", "design_ref": "DESIGN.md §3 C08",
+     "technique": "exhaustive enumeration of scripted uniform draws (torch.rand owned by the harness, menu includes 0 and 1-2^-24) per draw group x limit menus, drawn parameters and applied output checked against a reference model",
+     "text": "For every (T,F), length, limit combination and every menu answer to each uniform draw (groups enumerated alone - they share no draws or limits, verified by a joint pass that must reproduce the alone results bit for bit): widths/counts within both caps, masks inside the valid region, warp centre/shift inside the window; applying: masked bands exactly zero, all else bit-identical without warp, shape preserved, eval identity, linear warp monotone and anchored within half a frame, all orders finite and inside the valid frames' value band (padding holds a sentinel).",
+     "note": MC_NOTE},
+    {"id": "C09", "engine": "E1-small-scope", "level": "exploration", "design_ref": "DESIGN.md §3 C09",
+     "technique": "bounded exhaustive enumeration of (length, pad/slice) row configurations and their pairings against per-sequence torch.nn.functional.pad + slice; RandomShift draws scripted exhaustively",
+     "text": "pad_variable / chunk_by_slices: every (len, left, right) with pads up to 9 (> T) and every slice in [-6,11]^2 in all three modes, batched in pairs and ragged batches, compared row by row with pad-then-slice of the single sequence; pad_masked_sequence on every boolean mask; RandomShift with every menu answer per element: whole-number pads within the proportion bound, original embedded unchanged, eval identity.",
+     "note": E1_NOTE},
+    {"id": "C11", "engine": "E1-small-scope", "level": "exploration", "design_ref": "DESIGN.md §3 C11",
+     "technique": "bounded exhaustive enumeration of transcript trees / segment orderings / TextGrid option grids with write-then-read comparison; worker completion orders explored on a virtual pool and replayed on the real pool",
+     "text": "trn: every alternates tree up to size 3/4 and depth 3 over 1-3 utterances; ctm: all orderings of <=4 segments over <=2 utterances/channels with and without mapping; TextGrid: interval/point tiers, precisions, fill token, times >= 10 s; path vs open file byte-identical under every option; multi-worker trn reading under every completion order of the virtual pool and on the real pool; transcript<->token tensor within one frame shift.",
+     "note": E1_NOTE + " Known finding F8b (write_textgrid drops point_tier on the path branch) is printed as KNOWN-FINDING."},
+    {"id": "C12", "engine": "E3-statespace", "level": "model_checking", "design_ref": "DESIGN.md §3 C12",
+     "technique": "explicit-state breadth-first search over real data directories on tmpfs: transitions are validate(strict) / validate(fix=k) calls, states are canonical directory contents, every state compared with a reference model written from the documented conditions",
+     "text": "From every single-utterance directory of the defect menu (and reduced two-utterance products) the real validate_spect_data_set / info command is applied to depth 3; in every state: strict validation raises iff the spec says invalid; a fix either raises leaving each file unchanged-or-repaired or succeeds with exactly the spec's repair; a successful fix is followed by a passing strict validation and is idempotent; the info report equals a recount. sos/eos round trip through __getitem__/write_hyp for every token list incl. empty.",
+     "note": MC_NOTE},
+    {"id": "C17", "engine": "E2-choice-explorer", "level": "model_checking", "design_ref": "DESIGN.md §3 C17",
+     "technique": "exhaustive exploration of worker-pool completion orders (virtual in-process pool, every order of imap_unordered chunks) x small complete corpora x flag grids on the real command entry points, against reference converters; real spawn pool / DataLoader workers replayed for conformance (thorough)",
+     "text": "Round trips trn/ctm/TextGrid <-> token dir and ali <-> token dir for every prefix/suffix; error-rate command totals vs the C02 oracle for every batch size / replace / ignore / per-utt setting; subsetting and statistics commands vs recounts; identical files and figures for worker counts {0,2} under every completion order. States = (command, corpus, schedule) executions.",
+     "note": MC_NOTE},
+    {"id": "C18", "engine": "E1-small-scope", "level": "exploration", "design_ref": "DESIGN.md §3 C18",
+     "technique": "exhaustive enumeration of accumulation histories (every ordered set partition of the chunk pool) and of delta/return argument grids against defining formulas",
+     "text": "MVN: every subset of a chunk pool, every partition into accumulate calls in every order, bessel both, feature axis anywhere: stored statistics == pooled statistics, normalised data has mean 0 / variance 1, own statistics when none stored, directory command incl. groups; deltas: every order/width/pad mode/(dim,time_dim,concatenate) vs recursive regression on the padded input; returns: every reward vector over {-1,0,1,2}^T, gamma in {0,.5,1,2}, both layouts.",
+     "note": E1_NOTE},
+    {"id": "C19", "engine": "E2-choice-explorer", "level": "model_checking", "design_ref": "DESIGN.md §3 C19",
+     "technique": "exhaustive exploration of every Bernoulli / categorical draw of the estimators with exact path probabilities: E[value] and E[gradient] over the whole tree vs exact enumeration; quadrature grids for relaxed noise",
+     "text": "For every enumerable proposal (1-3 Bernoulli variables, 2-3 class categoricals, fixed-cardinality sampling), function, control variate and 1-2 samples, the complete draw tree of the real estimator is explored and the probability-weighted mean of value and gradient compared with the exact expectation and its gradient; IMH with proposal == target accepts everything; relaxed distributions: threshold(csample(b)) == b and density factorisation on a grid; supports and fixed-cardinality sampling exact. States = draw prefixes, transitions = draws answered, traces = complete trees compared.",
+     "note": MC_NOTE + " Known finding F15b (zero-width fixed-cardinality vectors) is printed as KNOWN-FINDING."},
+    {"id": "C20", "engine": "E1-small-scope", "level": "exploration", "design_ref": "DESIGN.md §3 C20",
+     "technique": "bounded exhaustive enumeration of broadcastable shape tuples, sequence dims, masks and bias-flag subsets; metamorphic relations (convexity, masked-content invariance, permutation invariance, broadcast == expand, head composition) checked on each",
+     "text": "Every shape family admitted by the documented broadcasting rules with dims in {1,2,3}, every legal sequence dim (both spellings), every non-empty mask, all four attention flavours: output within the kept values' range, unchanged under finite garbage at masked positions, unchanged under every permutation of positions, broadcast query == expanded query, multi-headed == project/per-head/concat/project with biases exactly where requested.",
+     "note": E1_NOTE},
+]
+
 _PENDING = "check under construction in this session; not yet claimed"
 NOT_APPLICABLE = [
     {"property_id": p, "reason": _PENDING}
-    for p in ["C04", "C05", "C06", "C07", "C08", "C09", "C10", "C11", "C12", "C13", "C14",
-              "C17", "C18", "C19", "C20"]
+    for p in ["C04", "C10", "C13", "C14"]
 ]
 
 NOTES = ("All checks are bounded-exhaustive explorations of the real implementation (model-checking family); "
